@@ -168,51 +168,27 @@ def greeting_rules(rep, prog, cfg):
                 ok2 = okt is not None and gcalls[0] not in reach(g.succs, [okt])
             rep.check(ok2, "C18.greeting-loop", "%s/%s Ok leaves the loop" % (cfg, name), b.loc(b.span),
                       "a successfully parsed greeting does not end the read loop")
-    # grammar clause: prefix and non-empty version up to the newline
+    # grammar clause: the greeting parser denotes exactly  "OK MPD " ⟨[^\n]+⟩ "\n"  (A10)
+    from .. import grammar as G
     bs = body_by_name(prog, GREETING)
     if len(bs) != 1:
         rep.fail("C18.anchor", cfg + "/parser::greeting", "parser.rs", "greeting parser not found")
         return
     b = bs[0]
-    tags = []
-    nonempty = None
-    pred = None
-    for bb, t in b.calls():
-        ns = callee_names(t)
-        if any(n.endswith("::tag") for n in ns):
-            tags.append(const_value_of(prog, b, t["args"][0]))
-        for n in ns:
-            m = n.rsplit("::", 1)[-1]
-            if m in ("take_while1", "take_till1", "is_not"):
-                nonempty = m
-                for a in t["args"]:
-                    l = op_local(a)
-                    if l is not None and "closure@" in b.local_ty(l):
-                        pred = (m, closure_of_local(prog, b, l))
-            if m in ("take_while", "take_till", "take_until", "not_line_ending", "rest") and nonempty is None:
-                nonempty = False
-    names = set()
-    for bb, t in b.calls():
-        for a in t["args"] + [t["func"]]:
-            c = op_const(a)
-            if c is not None and "fn" in c:
-                names.add(norm(c["fn"]["name"]))
-        names.update(callee_names(t))
-    rep.check(tags == ["OK MPD "], "C18.greeting-grammar", cfg + "/prefix", b.loc(b.span), "the greeting prefix is %s, MPD sends 'OK MPD '" % tags)
-    rep.check(bool(nonempty), "C18.greeting-grammar", cfg + "/non-empty version", b.loc(b.span),
-              "the version part of the greeting may be empty (no take_while1/take_till1): `OK MPD \\n` is not a valid greeting and would be accepted")
-    if pred is not None and pred[1] is not None:
-        try:
-            acc, width, _ = charset.accept_set(prog, pred[1])
-            version_chars = acc if pred[0] == "take_while1" else charset.complement(acc, width)
-            rep.check(not charset.in_set(version_chars, 10, 10) and charset.in_set(version_chars, 0x20, 0x7E), "C18.greeting-grammar",
-                      cfg + "/version = everything up to LF", b.loc(b.span),
-                      "the version characters are %s: must exclude LF and include all printable characters (version reported verbatim)" % charset.fmt_set(version_chars))
-        except charset.Opaque as e:
-            rep.fail("C18.greeting-grammar", cfg + "/version predicate", b.loc(b.span), "version character predicate not analysable: %s" % e)
-    rep.check(any(n.endswith("streaming::newline") or n.endswith("streaming::line_ending") for n in names) or
-              any((const_value_of(prog, b, t["args"][0]) or "").endswith("\n") for bb, t in b.calls() if any(n.endswith("::tag") for n in callee_names(t))),
-              "C18.greeting-grammar", cfg + "/terminated by LF", b.loc(b.span), "the greeting line is not required to end with a line feed")
+    ref = G.seq(G.lit(b"OK MPD "), G.cap(G.rep(G.ALL - {10}, 1)), G.lit(b"\n"))
+    try:
+        ex = G.Extractor(prog)
+        term = G.flatten(ex.resolve(ex.of_fn(b)))
+        same, wit = G.equivalent(term, G.flatten(ref))
+    except G.Unsupported as e:
+        rep.fail("C18.greeting-grammar", cfg + "/language", b.loc(b.span), "the greeting grammar cannot be extracted (%s): failing closed" % e)
+        return
+    rep.check(same, "C18.greeting-grammar", cfg + "/language", b.loc(b.span),
+              "the greeting parser denotes  %s  — a valid greeting is  %s ; `%s` is accepted only by the %s (the version must be non-empty, reported verbatim, and end at the line feed)"
+              % (G.pretty(term), G.pretty(G.flatten(ref)), wit[1] if wit else "", wit[0] if wit else ""), detail={"grammar": G.pretty(term)})
+    got = G.conds_of(term)
+    rep.check(len(got) == 1 and any(x.endswith("from_utf8") for x in got[0]), "C18.greeting-grammar", cfg + "/version is validated UTF-8", b.loc(b.span),
+              "the version string is converted with %s, expected from_utf8" % got)
 
 
 def run(rep, progs, tier):
